@@ -218,6 +218,9 @@ fn search(
         };
         if valid_class && valid_truck {
             // the tolerance is a great-circle distance; the r-tree ranks by squared degrees
+            if tolerance.is_none() {
+                return Ok(Some(record.edge_id));
+            }
             let distance_meters = distance_to_record_meters(&coord, record)?;
             if within_tolerance(tolerance, &distance_meters) {
                 return Ok(Some(record.edge_id));
